@@ -1,11 +1,22 @@
 #!/bin/bash
-# tools/try_seed.sh <patch.diff> <PROP> [tier] : applies a seeded change to /repo, runs the check, reverts.
-cd "$(dirname "$0")/.."
-patch=$1; prop=$2; tier=${3:-quick}
-git -C /repo diff --quiet || { echo "/repo is dirty"; exit 2; }
-git -C /repo apply "$patch" || { echo "patch does not apply"; exit 2; }
-checks/run.sh $prop $tier > /tmp/try_seed.out 2>&1; code=$?
-git -C /repo checkout -- . 
-grep -E '^(VIOLATION|KNOWN-FINDING|INCONCLUSIVE|HOLDS|VIOLATED)' /tmp/try_seed.out | cut -c1-400 | head -12
+# tools/try_seed.sh <patch.diff> <PROP> [tier]
+# Runs the registered check of <PROP> against a seeded change WITHOUT touching /repo or the
+# committed evidence: the patch is applied in a scratch worktree of /repo HEAD (VERIF_REPO) and
+# the run writes its out/ and evidence/ under a scratch VERIF_ROOT holding a copy of the harness.
+# (Equivalent to `git -C /repo apply`, run, `git -C /repo checkout -- .`, but safe to run while
+# other checks are reading /repo.)
+set -u
+here="$(cd "$(dirname "$0")/.." && pwd)"
+patch=$(readlink -f "$1"); prop=$2; tier=${3:-quick}
+tag=$(basename "$(dirname "$patch")")-$$
+wt=/tmp/ts-repo-$tag; root=/tmp/ts-root-$tag
+cleanup() { git -C /repo worktree remove --force "$wt" >/dev/null 2>&1; rm -rf "$root" "$wt"; git -C /repo worktree prune; }
+trap cleanup EXIT
+git -C /repo worktree add --detach "$wt" HEAD -q || { echo "cannot create worktree"; exit 2; }
+git -C "$wt" apply "$patch" || { echo "patch does not apply"; exit 2; }
+mkdir -p "$root"; cp -r "$here/harness" "$here/known_findings.json" "$root/"; mkdir -p "$root/bin"; 
+[ -x "$here/bin/gosym" ] || (cd "$here/engine" && GOFLAGS=-mod=mod GOPROXY=off GOSUMDB=off GOTOOLCHAIN=local go build -o ../bin/gosym ./cmd/gosym)
+VERIF_ROOT="$root" VERIF_REPO="$wt" "$here/bin/gosym" check "$prop" --tier "$tier" --seed "${VERIF_SEED:-1}" > "$root/run.out" 2>&1; code=$?
+grep -E '^(VIOLATION|KNOWN-FINDING|INCONCLUSIVE|HOLDS|VIOLATED)' "$root/run.out" | cut -c1-400 | head -12
 echo "exit=$code"
 exit $code
